@@ -821,3 +821,128 @@ def c07_any_replay(w):
         bad = c07_hexital_check(w["scenario"])
         return {"fails": bad is not None, "detail": bad}
     return c07_replay(w)
+
+
+# ------------------------------------------------------------------------------------ C14: a whole Hexital converges to the batch state
+
+
+def c14_converge_check(scn):
+    """a Hexital with members on several timeframes (optionally Heikin-Ashi) is driven through a program of appends and maintenance
+    calls - named and UNNAMED purge / recalculate / calculate_index, remove_indicator; after a final calculate() every manager must
+    hold exactly what a fresh Hexital with the surviving members holds after ONE calculate() over the whole stream"""
+    from hexital.core.hexital import Hexital
+
+    stream = scn["stream"]
+    kw = {"timeframe": scn.get("htf")}
+    if scn.get("ha"):
+        kw["candlestick_type"] = "HA"
+
+    def build(specs_, candles):
+        return Hexital("H", candles, [specs.build_indicator(sp, [], with_manager=True) for sp in specs_], **kw)
+
+    try:
+        twin0 = build(scn["members"], cm.mk_candles(stream))
+        twin0.calculate()
+    except Exception:
+        return None  # the configuration itself fails in batch: not this property's subject
+    alive = list(scn["members"])
+    hx = build(alive, cm.mk_candles(stream[: scn["init"]]))
+    names = list(hx.indicators)
+    if len(names) != len(alive):
+        return None
+    consumed = scn["init"]
+    last = None
+    try:
+        hx.calculate()
+        for op in scn["program"]:
+            last = op
+            if op[0] == "append":
+                hx.append(cm.mk_candles(stream[consumed : consumed + op[1]]))
+                consumed += op[1]
+                continue
+            target = None if op[1] is None else names[op[1] % len(names)]
+            if target is not None and target not in hx.indicators:
+                continue
+            if op[0] == "purge":
+                hx.purge(target)
+            elif op[0] == "recalculate":
+                hx.recalculate(target)
+            elif op[0] == "remove" and target is not None and len(hx.indicators) > 1:
+                hx.remove_indicator(target)
+                alive = [sp for sp, nm in zip(alive, list(names)) if nm != target]
+                names = [nm for nm in names if nm != target]
+            elif op[0] == "calculate_index":
+                hx.calculate()
+                touched = [hx.indicator(target)] if target else list(hx.indicators.values())
+                if any(len(i.candles) < -op[2] for i in touched):
+                    continue   # only candles that exist (and hold a reading) may be recomputed
+                hx.calculate_index(target, op[2])
+        hx.append(cm.mk_candles(stream[consumed:]))
+        hx.calculate()
+    except Exception as e:
+        return {"clause": "raised", "observed": f"{type(e).__name__} at {last}", "expected": "the program runs (its batch twin does)"}
+    try:
+        twin = build(alive, cm.mk_candles(stream))
+        twin.calculate()
+    except Exception:
+        return None
+    for nm in names:
+        a, b = hx.indicator(nm), twin.indicator(nm)
+        d = first_diff(snapshot(a.candles), snapshot(b.candles))
+        if d:
+            # entries of removed members are gone in both; compare everything the member's manager holds
+            return {"clause": "not-batch-state", "observed": {"member": nm, **d}, "expected": "the candles and readings of a fresh batch Hexital"}
+    return None
+
+
+def c14_converge_case(rng, idx, params):
+    unit, base = rng.choice("TTH"), rng.choice([1, 5, 10])
+    htf = f"{unit}{base}" if rng.random() < 0.3 else None
+    members = []
+    for _ in range(rng.randint(2, 4)):
+        sp = specs.gen_spec(rng)
+        sp.pop("name", None)
+        if rng.random() < 0.55:
+            sp["tf"] = f"{unit}{base * rng.choice([1, 2, 3, 5])}"
+        members.append(sp)
+    n = rng.randint(12, params.get("size", 40) + 20)
+    step = max(1, gen.tf_seconds(f"{unit}{base}") // rng.choice([1, 2, 5]))
+    stream, meta = gen.gen_stream(rng, n, step=step, ts_style=rng.choice(["regular", "regular", "gaps"]))
+    init = rng.randint(0, n // 2)
+    left = n - init
+    prog = []
+    for _ in range(rng.randint(3, 9)):
+        k = rng.random()
+        tgt = None if rng.random() < 0.35 else rng.randint(0, 9)
+        if k < 0.45 and left > 1:
+            c = rng.randint(1, min(left - 1, 6))
+            prog.append(("append", c))
+            left -= c
+        elif k < 0.6:
+            prog.append(("purge", tgt))
+        elif k < 0.75:
+            prog.append(("recalculate", tgt))
+        elif k < 0.9:
+            prog.append(("calculate_index", tgt, rng.choice([-1, -1, -2, -3])))
+        else:
+            prog.append(("remove", rng.randint(0, 9)))
+    scn = {"converge": True, "members": members, "htf": htf, "ha": rng.random() < 0.25, "stream": stream, "init": init, "program": prog}
+    try:
+        bad = c14_converge_check(copy.deepcopy(scn))
+    except Exception:
+        bad = None
+    viol = {"scenario": scn, **bad, "signature": f"C14:converge:{bad['clause']}"} if bad else None
+    meta.update({"kind": "converge", "ops": len(prog), "ha": scn["ha"], "htf": bool(htf), "member_tfs": sum(1 for m in members if m.get("tf"))})
+    return {"nontrivial": len(prog) >= 3, "key": hash(str(scn)), "violation": viol, "meta": meta,
+            "sample": {"members": members, "program": prog[:8]} if idx < 1 else None}
+
+
+_c14_any_replay_prev = c14_any_replay
+
+
+def c14_any_replay(w):  # noqa: F811
+    s = w["scenario"]
+    if s.get("converge"):
+        bad = c14_converge_check({**copy.deepcopy(s), "program": [tuple(o) for o in s["program"]]})
+        return {"fails": bad is not None, "detail": bad}
+    return _c14_any_replay_prev(w)
